@@ -99,7 +99,7 @@ impl Check for PairQuote {
             .boxed()
     }
     fn cases(&self, tier: Tier) -> u32 {
-        tier.pick(30_000, 1_500_000)
+        tier.pick(30_000, 750_000)
     }
     fn min_nontrivial(&self) -> f64 {
         0.05
@@ -262,7 +262,7 @@ impl Check for TrioQuote {
             .boxed()
     }
     fn cases(&self, tier: Tier) -> u32 {
-        tier.pick(24_000, 1_200_000)
+        tier.pick(24_000, 600_000)
     }
     fn min_nontrivial(&self) -> f64 {
         0.05
@@ -602,7 +602,7 @@ impl Check for RouterQuote {
             .boxed()
     }
     fn cases(&self, tier: Tier) -> u32 {
-        tier.pick(20_000, 1_000_000)
+        tier.pick(20_000, 500_000)
     }
     fn min_nontrivial(&self) -> f64 {
         0.05
@@ -732,7 +732,7 @@ impl Check for VaultShareQuote {
             .boxed()
     }
     fn cases(&self, tier: Tier) -> u32 {
-        tier.pick(24_000, 1_200_000)
+        tier.pick(24_000, 600_000)
     }
     fn min_nontrivial(&self) -> f64 {
         0.02
